@@ -192,6 +192,19 @@ def directed():
     return out
 
 
+# payload/template pairs of different shapes (replays of the two TemplatedFlatten findings first)
+TEMPLATED_ANY_DIRECTED = [
+    "t|a:0:61:X:616263;a:2:61:s:%s;cp:1:2" % ("78" * 40),                       # same name, other type: size by name, bytes by name+type
+    "t|a:0:61:s:6869;a:2:61:s:7171717171;a:2:61:s:78;cp:1:2",                    # fewer payload strings, longer template strings
+    "t|a:0:61:s:68696869;a:0:7a:i:09000000;a:2:61:s:71;a:2:61:s:78;a:2:7a:i:00000000;cp:1:2",   # ... shorter template strings
+    "t|a:0:61:X:616263;a:0:7a:i:09000000;a:2:61:X:;a:2:61:X:;a:2:7a:i:00000000;cp:1:2",          # fewer payload raw items
+    "t|a:0:61:i:07000000;a:2:61:i:00000000;a:2:61:i:01000000;cp:1:2",            # fewer payload int32 items
+    "t|a:0:61:i:07000000;a:0:61:i:08000000;a:2:61:i:00000000;cp:1:2",            # more payload items than the template
+    "t|a:0:61:i:07000000;a:2:62:s:6869;cp:1:2",                                  # disjoint fields
+    "t|a:1:61:s:6869;am:0:6b:1;a:3:61:s:71;a:3:61:s:78;am:2:6b:3;am:2:6b:3;cp:1:2",   # fewer sub-Messages, fewer strings inside
+]
+
+
 class CHECK(vlib.Check):
     prop = "C01"
     prop_file = "Properties_C01.v"
@@ -204,8 +217,9 @@ class CHECK(vlib.Check):
                 "handling, CalculateChecksum (inline and array forms, CalculatePODChecksum), operator==/FieldsAreSubsetOf/IsEqualTo "
                 "(all four inline/array cases), the Add/Prepend/Replace/RemoveData/RemoveName/Rename/Clear state transitions of the "
                 "field table and of the field representation (empty/inline/array), MoveNameToFront/Back, CopyName, ReplaceFlat; the "
-                "templated codec (CreateMessageTemplate, TemplatedFlattenedSize/TemplatedFlatten/TemplatedUnflatten; the 'payload has "
-                "fewer items than the template' branch of TemplatedFlatten is not modelled).  Not modelled: the Queue ring buffer inside a field "
+                "templated codec (CreateMessageTemplate, TemplatedFlattenedSize/TemplatedFlatten/TemplatedUnflatten for ANY template/payload "
+                "pair: absent fields, same name with another type, more items, and fewer items than the template -- the documented "
+                "'payload values where possible, padded with the template's' -- with tmpl_merge as what the bytes stand for).  Not modelled: the Queue ring buffer inside a field "
                 "array (C16), the Hashtable's buckets (C09), the gateway's template cache (C03), object sharing/copy-on-write, "
                 "MurmurHash2 and MurmurHash64A (parameters of the theorems; the OCaml driver supplies them).  Message::TemplateHashCode64 "
                 "is modelled (tmpl_hash: running field counter * (64-bit field-name hash + item count * type code), the counter threaded "
@@ -226,7 +240,13 @@ class CHECK(vlib.Check):
             "model, and the harness evaluates the property itself through the public Find* API.  In addition the harness keeps its "
             "own ideal Message (ordered fields of plain item vectors) and compares, after EVERY operation, the operation's status and "
             "the Message's content read back through the public API with it (so a replace/remove at an invalid index that succeeds, "
-            "or an add that lands in the wrong place, is reported with the script as replay).  Non-trivial = at least two "
+            "or an add that lands in the wrong place, is reported with the script as replay).  Templated streams: register 0 is "
+            "flattened against the template in register 1 into a buffer of exactly TemplatedFlattenedSize bytes (ASan sees any byte "
+            "written past it, a 0xEE fill shows any byte never written), the bytes, TemplatedUnflatten's result and both "
+            "TemplateHashCode64 values are compared with the model; the template is CreateMessageTemplate of the payload or of a "
+            "same-shape variant (stream templated) or an arbitrary variant with more/fewer items, extra/missing fields or another "
+            "type under the same name (stream templated-any), where the harness also checks the parsed Message against its own "
+            "merge of payload and template through the public API.  Non-trivial = at least two "
             "successful-looking add/prepend operations reach register 0 directly or through AddMessage.")
 
     def gen_cases(self, rng, tier):
@@ -265,6 +285,34 @@ class CHECK(vlib.Check):
             if rng.random() < 0.5:
                 tail.append("tm:%d" % rng.randrange(2 ** 31))
             out.append(("templated", "t|" + ";".join(ops + tail)))
+        # any template (stream templated-any): the template is made from, or simply IS, a variant of the payload with more
+        # items in a field (the payload is padded from the template), fewer items, an extra or a missing field, or a field of
+        # another type under the same name; the bytes go into an exact-size buffer
+        for c in TEMPLATED_ANY_DIRECTED:
+            out.append(("templated-any", c))
+        for i in range(n // 5):
+            body = gen_script(rng, rng.choice([2, 4, 6, 9, 12]), "m", 4).split("|", 1)[1]
+            ops = [o for o in body.split(";") if o and not o.startswith("cp:1:0") and not o.startswith("u:1")]
+            adds = [o.split(":") for o in ops if o.startswith("a:0:") or o.startswith("p:0:")]
+            adds = [a for a in adds if len(a) == 5 and a[3] not in ("o", "g")]
+            r = rng.random()
+            tail = ["cp:2:0"]
+            if adds and r < 0.45:
+                a = rng.choice(adds)
+                for j in range(rng.choice([1, 1, 2, 3])):
+                    tail.append("a:2:%s:%s:%s" % (a[2], a[3], val(rng, "X" if a[3].startswith("x") else a[3])))
+            elif adds and r < 0.6:
+                a = rng.choice(adds)
+                tail.append("x:2:%s:0" % a[2])
+            elif r < 0.8 or not adds:
+                nm, t = rng.choice(NAMES[:6]), rtype(rng)
+                tail.append(rng.choice(["a:2:%s:%s:%s" % (hx(nm), t, val(rng, t)), "xn:2:%s" % hx(nm)]))
+            else:
+                a = rng.choice(adds)
+                t = rtype(rng)
+                tail += ["xn:2:%s" % a[2], "a:2:%s:%s:%s" % (a[2], t, val(rng, t))]
+            tail.append(rng.choice(["ct:1:2", "cp:1:2", "cp:1:2"]))
+            out.append(("templated-any", "t|" + ";".join(ops + tail)))
         return out
 
     def nontrivial(self, case):
